@@ -739,7 +739,7 @@ def run(ctx):
         "comment_attachments_checked": stats["node_hist"].get("comment", 0),
         "pending": ["comment conservation (every comment attached exactly once) is C09's property (C09-F2 open) and is not checked here; "
                     "comment placement relative to the owner is", "E.MethodAccess only exists after type checking (the parser emits FieldAccess); it is reached "
-                    "through the service queries only", "rename returns the whole re-printed module, not edit ranges: only `still parses` is checked"],
+                    "through the service queries only", "rename's LSP edit is one replacement of ENTIRE_DOCUMENT_RANGE: no derived range exists; new text parses and renames exactly the references"],
         "extractor_ok": extractor_ok,
     })
     ctx.assumptions += ["columns are byte columns (implementation convention); LSP UTF-16 columns differ on non-ASCII lines (observation)",
